@@ -174,9 +174,20 @@ func main() {
 			safetyReach[shortKey(k)] = true
 		}
 	}
+	primaryFn := map[string]bool{} // functions that take part in the requested property by their own tags
+	if *prop != "all" {
+		for _, k := range keys {
+			if !pulled[shortKey(k)] && hasProp(e.cs.Funcs[k], *prop) {
+				primaryFn[shortKey(k)] = true
+			}
+		}
+	}
 	for _, o := range e.obls {
 		if (*prop == "all" && (len(o.Props) > 0 || o.ExpectSat || o.Kind == "lemma" || (safetyReach[o.Fn] && isSafetyKind(o.Kind)))) || contains(o.Props, *prop) || (pulled[o.Fn] && len(o.Props) > 0) ||
-			(pulled[o.Fn] && safetyClosureProps[*prop] && isSafetyKind(o.Kind)) {
+			(pulled[o.Fn] && safetyClosureProps[*prop] && isSafetyKind(o.Kind)) ||
+			(*prop != "all" && strings.HasPrefix(o.Kind, "inv#") && primaryFn[o.Fn]) {
+			// (loop invariants are helper clauses: a clause tagged with this property may rest on them, so they are
+			// checked with every property the function takes part in)
 			// (a crash/wedge-freedom property covers the run-time checks and the lock typestate of every function its
 			// handlers reach, whether or not that function's contract tags them)
 			obls = append(obls, o)
